@@ -304,6 +304,57 @@ def check(run, F, tier):
             else:
                 r3.violation(key, "%s uses %s, the specification's mask/shift is %s" % (key, sorted(consts), sorted(want)))
 
+    # PUBLISH flag setters: a method that rewrites fixed_header[0] in place must leave the packet-type nibble alone:
+    # `&= c` needs c's high nibble all ones, `|= c` needs it all zeros; set_dup uses exactly the DUP mask and its complement
+    for ver in ("v3_1_1", "v5_0"):
+        base = "mqtt::packet::%s::publish::GenericPublish::<PacketIdType>::" % ver
+        nset = 0
+        for pth, f in sorted(F.fns.items()):
+            if not pth.startswith(base):
+                continue
+            # locals holding a constant or its complement (`!0b0000_1000` is a separate MIR statement)
+            lconst = {}
+            for b in f["blocks"]:
+                for s_ in b["stmts"]:
+                    if s_["k"] == "assign" and not s_["lhs"]["p"]:
+                        rv = s_["rv"]
+                        if rv["k"] == "use" and "const" in rv["op"] and "bits" in rv["op"]["const"]:
+                            lconst[s_["lhs"]["l"]] = rv["op"]["const"]["bits"] & 0xFF
+                        elif rv["k"] == "un" and rv.get("op") == "Not" and "const" in rv["a"] and "bits" in rv["a"]["const"]:
+                            lconst[s_["lhs"]["l"]] = ~rv["a"]["const"]["bits"] & 0xFF
+
+            def cval(o):
+                if "const" in o and "bits" in o["const"]:
+                    return o["const"]["bits"]
+                pl = o.get("move") or o.get("copy")
+                if pl is not None and not pl["p"] and pl["l"] in lconst:
+                    return lconst[pl["l"]]
+                return None
+            for b in f["blocks"]:
+                for s_ in b["stmts"]:
+                    if s_["k"] != "assign" or s_["rv"]["k"] != "bin" or s_["rv"]["op"] not in ("BitAnd", "BitOr", "BitXor"):
+                        continue
+                    if not any(isinstance(el, dict) and el.get("n") == "fixed_header" for el in s_["lhs"]["p"]):
+                        continue
+                    cs = [c for c in (cval(s_["rv"]["a"]), cval(s_["rv"]["b"])) if c is not None]
+                    if not cs:
+                        continue
+                    nset += 1
+                    c0 = cs[0] & 0xFF
+                    op = s_["rv"]["op"]
+                    key = "%s::publish::%s/%s 0x%02x" % (ver, f["name"], op, c0)
+                    okm = (op == "BitAnd" and (c0 & 0xF0) == 0xF0) or (op in ("BitOr", "BitXor") and (c0 & 0xF0) == 0)
+                    if okm and f["name"] == "set_dup":
+                        dm = spec["publish_flags"]["dup"]["mask"]
+                        okm = (op == "BitOr" and c0 == dm) or (op == "BitAnd" and c0 == (~dm & 0xFF))
+                    if okm:
+                        r3.ok(key)
+                    else:
+                        r3.violation(key, "%s::publish::%s rewrites fixed_header[0] with `%s 0x%02x`: the packet-type nibble (0x3_) or a flag other than the intended one is changed"
+                                     % (ver, f["name"], {"BitAnd": "&=", "BitOr": "|=", "BitXor": "^="}[op], c0), site="%s:%s" % (f["file"], s_.get("line")))
+        if nset == 0:
+            r3.violation("%s::publish::setters" % ver, "no in-place fixed-header flag update found in %s PUBLISH (anchor lost)" % ver)
+
     # ------------------------------------------------------------------ R4
     r4 = run.rule("C03-R4", "field order on the wire (by field type) equals the specification's variable header / payload order", floor=29)
     lay = json.load(open(os.path.join(VERIF, "spec", "layout.json")))
